@@ -245,6 +245,7 @@ class Handler:
         # binding kinds per local: 'lit' / 'model' / 'opaque' / 'effect'; top-level single literal bindings are inlined
         self.kinds = {n: [] for n in self.locals}
         self.lit_value = {}
+        self.model_value = {}
         self.top_level_bind = {n: 0 for n in self.locals}
         self._collect_kinds(body, top=True)
 
@@ -253,6 +254,8 @@ class Handler:
         self.kinds.setdefault(name, []).append(kind)
         if kind == "lit":
             self.lit_value.setdefault(name, []).append(value)
+        if kind == "model":
+            self.model_value.setdefault(name, []).append(value)
         if top:
             self.top_level_bind[name] = self.top_level_bind.get(name, 0) + 1
 
@@ -261,7 +264,7 @@ class Handler:
             return "lit", v.value
         try:
             self.expr(v, inline=False)
-            return "model", None
+            return "model", v
         except NoClass:
             pass
         if self.pure_opaque(v, for_kind=True):
@@ -310,6 +313,24 @@ class Handler:
             and self.kinds[name] == ["lit"]
             and self.top_level_bind.get(name, 0) == 1
         )
+
+    def single_binding(self, name):
+        return len(self.kinds.get(name, [])) == 1 and self.top_level_bind.get(name, 0) == 1
+
+    def inlinable_model(self, name):
+        """bound once, at top level, to a modelled expression that reads neither the connection nor a local that
+        may be re-bound: using the expression at the use site means the same"""
+        if not (self.kinds.get(name) == ["model"] and self.single_binding(name)):
+            return False
+        v = self.model_value[name][0]
+        for n in ast.walk(v):
+            if isinstance(n, ast.Name) and n.id in ("connection", "self"):
+                return False
+            if isinstance(n, ast.Name) and n.id in self.scope and n.id != name and not self.single_binding(n.id):
+                return False
+            if isinstance(n, ast.Name) and n.id == name:
+                return False
+        return True
 
     def opaque_local(self, name):
         ks = self.kinds.get(name)
@@ -397,6 +418,8 @@ class Handler:
             if n.id in self.scope:
                 if inline and self.inlinable(n.id):
                     return ("ELit", self.lit_value[n.id][0])
+                if inline and self.inlinable_model(n.id):
+                    return self.expr(self.model_value[n.id][0], inline)
                 return ("EVar", n.id)
             raise NoClass
         if isinstance(n, ast.Attribute):
